@@ -5,7 +5,7 @@ From SV Require Import Fmt.VpkDir Fmt.VpkDirProofs Fmt.VpkName Fmt.VpkNameSplit 
 From SV Require Import Fmt.VpkArchName Fmt.VpkArchNameProofs SM.VpkRefine Fmt.VpkDirV2.
 From SV Require Import Fmt.VpkNameJoin Fmt.VpkNameJoinProofs SM.VpkPlaceTable SM.VpkPlaceTableProofs Fmt.VpkDirProg Fmt.VpkDirProgProofs Fmt.VpkDirRead Fmt.VpkDirReadProofs SM.VpkProperty SM.VpkGenMachine SM.VpkGenMachineProofs.
 From SV Require Import Fmt.VpkNullStr Fmt.VpkNullStrProofs SM.VpkNested SM.VpkNestedProofs SM.VpkApi SM.VpkApiProofs SM.VpkNestedMap SM.VpkNestedMapProofs SM.VpkNestedSim SM.VpkNestedWf SM.VpkPlace SM.VpkPlaceProofs.
-From SV Require Import SM.VpkWriteOrder SM.VpkWriteOrderProofs.
+From SV Require Import SM.VpkWriteOrder SM.VpkWriteOrderProofs SM.VpkListing SM.VpkListingProofs.
 Import ListNotations.
 Open Scope N_scope.
 
@@ -753,3 +753,25 @@ Theorem c13_error_paths_hypotheses_satisfiable :
   c13_hyps_r5 exit_table_pinned ex_cfg table_pinned rtable_pinned goc_pinned goc_pinned del_prog_pinned ncodec_pinned wprog_pinned rprog_pinned
            (SplitLast 46) gparts_pinned join_table_pinned (ex_ncfg (n_writer (ex_ncfg reader_rstrip))) rej_table_pinned = true.
 Proof. exact c13_hyps_r5_pinned. Qed.
+
+(** ---- round 5: the listing methods called with arguments (SM/VpkListing.v) ---- *)
+
+(** [list_walk w ext folder t] is what `filenames(ext, folder)` / `fileinfos(ext=, folder=)` yield on the nested dicts [t] when the method,
+    executed with that combination of arguments, performs the walk [w] (translate/c13_api.py: which extension dicts, which folders).  For
+    every accepted description and dicts without duplicate extension keys it is, in the same order, the entries of the default walk
+    ([flat_tree]: the table of the state machine by c13_nested_walk_is_table) with that extension (when one is given) whose folder name
+    starts with the folder argument (when one is given). *)
+Theorem c13_listing_with_arguments_is_filter : forall eg fg w, walk_ok eg fg w = true -> forall ext folder t, NoDup (map fst t) ->
+  list_walk w ext folder t = filter (listed eg fg ext folder) (flat_tree t).
+Proof. exact list_walk_is_filter. Qed.
+
+Theorem c13_listing_tables_list_matching : forall ws, walks_ok ws = true -> forall eg fg w, In (eg, fg, w) ws ->
+  forall ext folder t, NoDup (map fst t) ->
+  list_walk w ext folder t = filter (listed eg fg ext folder) (flat_tree t).
+Proof. exact walks_ok_lists_matching. Qed.
+
+(** The pinned walks are accepted; an inverted folder test (R7 of round 3) and a walk that ignores the extension argument are not. *)
+Theorem c13_listing_walks_computed :
+  walks_ok walks_pinned = true /\ walks_ok walks_inverted_filter = false
+  /\ walks_ok (map (fun x : bool * bool * lwalk => let '(eg, fg, w) := x in (eg, fg, mkWalk EAll (lw_dir w) true)) walks_pinned) = false.
+Proof. exact walks_computed. Qed.
